@@ -35,11 +35,13 @@ pub fn run_command_line(sh: &mut Shell, line: &str, tty: bool,
             sep = token.clone();
             continue;
         }
+        // a short-circuited command is skipped; the rest of the list
+        // (e.g. what follows a later `;` or `||`) is still evaluated.
         if sep == "&&" && status != 0 {
-            break;
+            continue;
         }
         if sep == "||" && status == 0 {
-            break;
+            continue;
         }
         let cmd = token.clone();
         let cr = run_proc(sh, &cmd, tty, capture);
